@@ -80,6 +80,30 @@ def fam_C08(tier, seed):
             i = b.ind(icls, name=iname, tasks=[a, c])
             b.obj(ocls, ind=i)
             ps.append(b.done())
+    # objective-created indicators over a SUBSET of the tasks
+    for ocls, icls in [("ObjectiveMinimizeFlowtime", "Flowtime"), ("ObjectiveTasksStartLatest", "MinimumStartTime"),
+                       ("ObjectiveMinimizeGreatestStartTime", "GreatestStartTime")]:
+        b = PB(4, tag="objective-indicators-subset")
+        a = b.task("A", "F", dur=2)
+        c = b.task("B", "F", dur=1)
+        d = b.task("C", "F", dur=1)
+        w = b.worker("W")
+        for t in (a, c, d):
+            b.require(t, worker=w)
+        i = b.ind(icls, name=icls, tasks=[a, d])
+        b.obj(ocls, ind=i, kind="maximize" if icls == "MinimumStartTime" else "minimize")
+        ps.append(b.done())
+    # a buffer that is only loaded: its minimum level is the initial one
+    for conc in (False, True):
+        b = PB(4, tag="buffer-indicators")
+        bf = b.buffer("Bf", concurrent=conc, initial=1)
+        a = b.task("A", "F", dur=1)
+        c = b.task("B", "F", dur=2)
+        b.load(a, bf, 2)
+        b.load(c, bf, 1)
+        b.ind("IndicatorMaxBufferLevel", buffer=bf)
+        b.ind("IndicatorMinBufferLevel", buffer=bf)
+        ps.append(b.done())
     # indicator targets and bounds
     for kind, val in itertools.product(("target", "lower", "upper", "both"), (0, 1, 2)):
         b = PB(4, tag="indicator-constraints")
